@@ -27,7 +27,7 @@ SKIP_TYPES = (types.ModuleType, types.FunctionType, types.BuiltinFunctionType, t
 def import_all() -> None:
     import explorerscript
     for m in pkgutil.walk_packages(explorerscript.__path__, "explorerscript."):
-        if m.name.startswith(SKIP_MODULE_PREFIXES) or ".cli." in m.name or m.name.endswith(".cli") or "pygments" in m.name:
+        if m.name.startswith(SKIP_MODULE_PREFIXES) or "pygments" in m.name:
             continue
         try:
             importlib.import_module(m.name)
